@@ -1,6 +1,506 @@
-/- C07 — property theorems.  Stub. -/
+/-
+C07 — property theorems.  Curved-edge entries are unique, sit on real block edges, are kept
+exactly when valid, the first definition wins, and every entry is written in the direction its
+data was specified for — on all 12 positions and for faces used as given, inverted, shifted or
+re-oriented.  Tables (`beamOrder`, `c07EdgeDir`, `c07OpBeams`, `edgePairs`, `c07Reversing`,
+`c07Kinds`) are regenerated from the source on every run.
+-/
 import CBV.Model.C07
+import CBV.Lemmas.C07
+import CBV.Lemmas.C07Face
+import CBV.Lemmas.C07Vertex
+import Mathlib.Tactic.Ring
+import Mathlib.Tactic.Linarith
+import Mathlib.Algebra.Order.Field.Rat
 
 namespace CBV.C07
+
+open CBV.C10 (Face)
+
+/-! ### the 12 positions: tables of the current source -/
+
+/-- blockMesh corner numbering: corner `c` has local coordinates (x, y, z) ∈ {0,1}³ -/
+def coord (c : Nat) : Bool × Bool × Bool :=
+  (c % 4 == 1 || c % 4 == 2, c % 4 == 2 || c % 4 == 3, c ≥ 4)
+
+/-- two corners are joined by an edge of the hexahedron iff they differ in exactly one coordinate -/
+def isHexEdge (c1 c2 : Nat) : Bool :=
+  let a := coord c1; let b := coord c2
+  ((if a.1 != b.1 then 1 else 0) + (if a.2.1 != b.2.1 then 1 else 0) + (if a.2.2 != b.2.2 then 1 else 0)) == 1
+
+/-- a list of directed beams is good when every beam is the directed pair of its slot
+    (bottom i: i → i+1 mod 4, top i: i+4 → (i+1 mod 4)+4, side i: i → i+4) and every one of the
+    12 slots occurs exactly once -/
+def beamsOk (bs : List (Nat × Nat × Nat)) : Bool :=
+  bs.all (fun x => decide (x.2.2 < 12) && (slotPair x.2.2 == (x.1, x.2.1))) &&
+  (List.range 12).all (fun s => (bs.filter (fun x => x.2.2 == s)).length == 1) &&
+  bs.length == 12
+
+def directedOk : Bool :=
+  match directedBeams with
+  | some bs => beamsOk bs
+  | none => false
+
+/-- **all 12 positions**: on the tables of the current source, `add_from_operation` (with
+    `Operation.edges`, `Frame.get_all_beams`, `tools.edge_map`) visits every slot exactly once and
+    pairs its datum with the directed corner pair the datum is specified for — including the
+    closing edges 3 → 0 and 7 → 4. -/
+theorem T_C07_direction_table : directedOk = true := by decide
+
+/-- the 12 directed slot pairs are exactly the 12 edges of the blockMesh hexahedron, each once,
+    and they are pairs `Frame.add_beam` accepts (generated `EDGE_PAIRS`) -/
+theorem T_C07_slots_are_hex_edges :
+    (∀ s ∈ List.range 12, isHexEdge (slotPair s).1 (slotPair s).2 = true ∧
+      validPair (slotPair s).1 (slotPair s).2 = true) ∧
+    ((List.range 12).map (fun s => (min (slotPair s).1 (slotPair s).2, max (slotPair s).1 (slotPair s).2))).Nodup ∧
+    ∀ a ∈ List.range 8, ∀ b ∈ List.range 8, isHexEdge a b = true →
+      ∃ s ∈ List.range 12, slotPair s = (a, b) ∨ slotPair s = (b, a) := by decide
+
+/-- the model's frame (12 `add_beam` calls + enumeration) gives what `Operation.edges
+    .get_all_beams()` gives on a probe operation of the current source -/
+theorem T_C07_frame_table : allBeams = some CBV.Gen.c07OpBeams := by decide
+
+/-- the kinds whose `EdgeData` class overrides `reverse()` are the direction-dependent kinds of the
+    model, and the factory knows exactly the model's kinds -/
+theorem T_C07_kind_tables :
+    CBV.Gen.c07Reversing = (Kind.all.filter Kind.dirDep).map Kind.name ∧
+    (∀ k ∈ Kind.all, k.name ∈ CBV.Gen.c07Kinds.map (·.1)) ∧
+    CBV.Gen.c07Kinds.length = Kind.all.length := by decide
+
+theorem directed_some : ∃ bs, directedBeams = some bs ∧ beamsOk bs = true := by
+  have h := T_C07_direction_table
+  unfold directedOk at h
+  split at h
+  · exact ⟨_, by assumption, h⟩
+  · cases h
+
+theorem beamsOk_mem {bs : List (Nat × Nat × Nat)} (h : beamsOk bs = true) {x : Nat × Nat × Nat} (hx : x ∈ bs) :
+    x.2.2 < 12 ∧ slotPair x.2.2 = (x.1, x.2.1) := by
+  unfold beamsOk at h
+  simp only [Bool.and_eq_true, List.all_eq_true, decide_eq_true_eq, beq_iff_eq] at h
+  exact h.1.1 x hx
+
+theorem beamsOk_slot {bs : List (Nat × Nat × Nat)} (h : beamsOk bs = true) {s : Nat} (hs : s < 12) :
+    ∃ x ∈ bs, x.2.2 = s := by
+  unfold beamsOk at h
+  simp only [Bool.and_eq_true, List.all_eq_true, beq_iff_eq] at h
+  have h1 := h.1.2 s (List.mem_range.mpr hs)
+  have : 0 < (bs.filter (fun x => x.2.2 == s)).length := by omega
+  obtain ⟨x, hx⟩ := List.exists_mem_of_length_pos this
+  rw [List.mem_filter] at hx
+  exact ⟨x, hx.1, by simpa using hx.2⟩
+
+/-- the request a slot of an operation stands for -/
+def slotReq (o : ROp) (s : Nat) : Entry :=
+  ⟨o.verts.getD (slotPair s).1 0, o.verts.getD (slotPair s).2 0, o.data.getD s lineDatum⟩
+
+theorem mem_reqsOfOp {bs : List (Nat × Nat × Nat)} (h : beamsOk bs = true) {o : ROp} {e : Entry} :
+    e ∈ reqsOfOp bs o ↔ ∃ s, s < 12 ∧ e = slotReq o s := by
+  unfold reqsOfOp slotReq
+  constructor
+  · intro he
+    rw [List.mem_map] at he
+    obtain ⟨x, hx, rfl⟩ := he
+    obtain ⟨h1, h2⟩ := beamsOk_mem h hx
+    exact ⟨x.2.2, h1, by rw [h2]⟩
+  · rintro ⟨s, hs, rfl⟩
+    obtain ⟨x, hx, rfl⟩ := beamsOk_slot h hs
+    rw [List.mem_map]
+    obtain ⟨_, h2⟩ := beamsOk_mem h hx
+    exact ⟨x, hx, by rw [h2]⟩
+
+theorem mem_allReqs {bs : List (Nat × Nat × Nat)} (h : beamsOk bs = true) {ops : List ROp} {e : Entry} :
+    e ∈ allReqs bs ops ↔ ∃ o ∈ ops, ∃ s, s < 12 ∧ e = slotReq o s := by
+  unfold allReqs
+  rw [List.mem_flatMap]
+  constructor
+  · rintro ⟨o, ho, he⟩; exact ⟨o, ho, (mem_reqsOfOp h).mp he⟩
+  · rintro ⟨o, ho, he⟩; exact ⟨o, ho, (mem_reqsOfOp h).mpr he⟩
+
+/-! ### the edges section, for every list of operations (all assemblies, all histories of `add`) -/
+
+/-- **unique**: no two entries join the same two vertices (in either order) -/
+theorem T_C07_unique (pos : Nat → V3) (bs : List (Nat × Nat × Nat)) (ops : List ROp) :
+    (asmEdges pos bs ops).Pairwise (fun e f => samePair e.v1 e.v2 f.v1 f.v2 = false) :=
+  run_distinct (List.Pairwise.nil)
+
+/-- **on a block edge, correctly directed**: every entry is the datum of one of the 12 slots of
+    some operation, written between that operation's vertices at the slot's directed corner pair
+    (first vertex = corner the datum starts from), and that pair is an edge of the hexahedron -/
+theorem T_C07_direction (pos : Nat → V3) (bs : List (Nat × Nat × Nat)) (hbs : beamsOk bs = true)
+    (ops : List ROp) (e : Entry) (he : e ∈ asmEdges pos bs ops) :
+    ∃ o ∈ ops, ∃ s, s < 12 ∧ e.v1 = o.verts.getD (slotPair s).1 0 ∧ e.v2 = o.verts.getD (slotPair s).2 0 ∧
+      e.d = o.data.getD s lineDatum ∧ isHexEdge (slotPair s).1 (slotPair s).2 = true := by
+  rcases run_mem_src he with h | ⟨h, _⟩
+  · cases h
+  · obtain ⟨o, ho, s, hs, rfl⟩ := (mem_allReqs hbs).mp h
+    exact ⟨o, ho, s, hs, rfl, rfl, rfl, (T_C07_slots_are_hex_edges.1 s (List.mem_range.mpr hs)).1⟩
+
+theorem T_C07_onblock (pos : Nat → V3) (bs : List (Nat × Nat × Nat)) (hbs : beamsOk bs = true)
+    (ops : List ROp) (e : Entry) (he : e ∈ asmEdges pos bs ops) :
+    ∃ o ∈ ops, ∃ a b, isHexEdge a b = true ∧ e.v1 = o.verts.getD a 0 ∧ e.v2 = o.verts.getD b 0 := by
+  obtain ⟨o, ho, s, _, h1, h2, _, h4⟩ := T_C07_direction pos bs hbs ops e he
+  exact ⟨o, ho, _, _, h4, h1, h2⟩
+
+/-- **omitted**: no entry is a line, joins two vertices closer than TOL, or is an arc whose three
+    points are collinear within TOL (what `Edge.is_valid` / `ArcEdgeBase.is_valid` reject) -/
+theorem T_C07_omitted (pos : Nat → V3) (bs : List (Nat × Nat × Nat)) (ops : List ROp) (e : Entry)
+    (he : e ∈ asmEdges pos bs ops) :
+    e.d.kind ≠ .line ∧ ¬ (V3.norm2 (pos e.v1 - pos e.v2) < tol2) ∧
+      ∀ p, e.d.kind.isArc = true → e.d.third = some p →
+        V3.norm2 (V3.cross (pos e.v1 - p) (pos e.v2 - p)) > tol2 := by
+  rcases run_mem_src he with h | ⟨_, hv⟩
+  · cases h
+  · unfold valid at hv
+    split at hv
+    · cases hv
+    · split at hv
+      · cases hv
+      · refine ⟨by assumption, by assumption, ?_⟩
+        intro p hp ht
+        rw [hp, ht] at hv
+        simpa using hv
+
+/-- **kept, exactly once**: a slot whose datum is valid (non-line, non-zero length, non-collinear)
+    has exactly one entry on its vertex pair -/
+theorem T_C07_kept (pos : Nat → V3) (bs : List (Nat × Nat × Nat)) (hbs : beamsOk bs = true)
+    (ops : List ROp) (o : ROp) (ho : o ∈ ops) (s : Nat) (hs : s < 12) (hv : valid pos (slotReq o s) = true) :
+    ∃ e ∈ asmEdges pos bs ops, e.same (slotReq o s) = true ∧
+      ∀ f ∈ asmEdges pos bs ops, f.same (slotReq o s) = true → f = e := by
+  have hm : slotReq o s ∈ allReqs bs ops := (mem_allReqs hbs).mpr ⟨o, ho, s, hs, rfl⟩
+  obtain ⟨e, he, hse⟩ := run_kept_mem (pos := pos) (es := []) hm hv
+  refine ⟨e, he, hse, ?_⟩
+  intro f hf hsf
+  have hd : Distinct (asmEdges pos bs ops) := run_distinct (List.Pairwise.nil)
+  exact distinct_unique hd hf he (Entry.same_trans hsf (by rw [Entry.same_comm]; exact hse))
+
+/-- **first definition wins** (request level): in any sequence of `EdgeList.add` calls, a valid
+    request that no earlier valid request shares its vertex pair with is written as it is — its own
+    data, its own direction -/
+theorem T_C07_first_wins (pos : Nat → V3) (pre post : List Entry) (r : Entry) (hv : valid pos r = true)
+    (hpre : ∀ q ∈ pre, valid pos q = true → q.same r = false) :
+    r ∈ run pos (pre ++ r :: post) [] :=
+  run_first_wins hv (by intro q hq; cases hq) hpre
+
+/-- … and conversely every entry is the first valid request for its vertex pair: later
+    re-definitions (by the same or another operation, in either direction) are ignored -/
+theorem T_C07_entries_are_first (pos : Nat → V3) (rs : List Entry) (e : Entry) (he : e ∈ run pos rs []) :
+    ∃ pre post, rs = pre ++ e :: post ∧ valid pos e = true ∧
+      ∀ q ∈ pre, valid pos q = true → q.same e = false := by
+  rcases run_char he with h | ⟨pre, post, h1, h2, _, h4⟩
+  · cases h
+  · exact ⟨pre, post, h1, h2, h4⟩
+
+/-- **first definition wins** (operation level): when no earlier operation validly defines the
+    vertex pair of a valid slot and the operation itself defines it only there, the slot's datum is
+    the entry, in the slot's direction — whatever later operations say -/
+theorem T_C07_first_wins_op (pos : Nat → V3) (bs : List (Nat × Nat × Nat)) (hbs : beamsOk bs = true)
+    (pre post : List ROp) (o : ROp) (s : Nat) (hs : s < 12) (hv : valid pos (slotReq o s) = true)
+    (hpre : ∀ q ∈ allReqs bs pre, valid pos q = true → q.same (slotReq o s) = false)
+    (hown : ∀ t, t < 12 → valid pos (slotReq o t) = true → (slotReq o t).same (slotReq o s) = true →
+      slotReq o t = slotReq o s) :
+    slotReq o s ∈ asmEdges pos bs (pre ++ o :: post) := by
+  unfold asmEdges allReqs
+  rw [List.flatMap_append, List.flatMap_cons, run_append, run_append]
+  apply run_mono
+  apply run_sole ((mem_reqsOfOp hbs).mpr ⟨s, hs, rfl⟩) hv
+  · intro q hq
+    rcases run_mem_src hq with h | ⟨h, hvq⟩
+    · cases h
+    · exact hpre q h hvq
+  · intro q hq hvq hsq
+    obtain ⟨t, ht, rfl⟩ := (mem_reqsOfOp hbs).mp hq
+    exact hown t ht hvq hsq
+
+/-! non-vacuity: the hypotheses hold for the real tables and for concrete operations -/
+
+example : beamsOk (directedBeams.getD []) = true := by decide
+
+/-- a unit cube with a spline on the closing bottom edge (slot 3, 3 → 0) and an arc on side edge 1 -/
+def exPos : Nat → V3 := fun v =>
+  [⟨0, 0, 0⟩, ⟨1, 0, 0⟩, ⟨1, 1, 0⟩, ⟨0, 1, 0⟩, ⟨0, 0, 1⟩, ⟨1, 0, 1⟩, ⟨1, 1, 1⟩, ⟨0, 1, 1⟩].getD v V3.zero
+
+def exSpline : Datum := { kind := .spline, tag := 1, pts := [⟨-1/2, 3/4, 0⟩, ⟨-1/2, 1/2, 0⟩] }
+def exArc : Datum := { kind := .arc, tag := 2, third := some ⟨3/2, 0, 1/2⟩ }
+
+def exOp : ROp :=
+  { verts := [0, 1, 2, 3, 4, 5, 6, 7],
+    data := [lineDatum, lineDatum, lineDatum, exSpline, lineDatum, lineDatum, lineDatum, lineDatum,
+             lineDatum, exArc, lineDatum, lineDatum] }
+
+example : valid exPos (slotReq exOp 3) = true ∧ valid exPos (slotReq exOp 9) = true := by decide +kernel
+
+/-- the closing edge is written `spline 3 0 (…)`, the side edge `arc 1 5 (…)` -/
+example : (asmEdges exPos (directedBeams.getD []) [exOp]).length = 2 ∧
+    ⟨3, 0, exSpline⟩ ∈ asmEdges exPos (directedBeams.getD []) [exOp] ∧
+    ⟨1, 5, exArc⟩ ∈ asmEdges exPos (directedBeams.getD []) [exOp] := by
+  decide +kernel
+
+/-! ### faces used as given, inverted, shifted, re-oriented -/
+
+/-- **inverted**: after `Face.invert` every datum joins the same two points the other way round and
+    is reversed (spline / polyLine points flipped, angle negated), so it describes the same curve -/
+theorem T_C07_invert {α : Type} [Inhabited α] (a b c d : α) (e0 e1 e2 e3 : Datum) :
+    dconn (faceInvert (⟨[a, b, c, d], [e0, e1, e2, e3]⟩ : Face α Datum)) =
+      [flipC (c, d, e2), flipC (b, c, e1), flipC (a, b, e0), flipC (d, a, e3)] ∧
+    dconn (⟨[a, b, c, d], [e0, e1, e2, e3]⟩ : Face α Datum) = [(a, b, e0), (b, c, e1), (c, d, e2), (d, a, e3)] :=
+  ⟨rfl, rfl⟩
+
+/-- **shifted**: after `Face.shift k`, for every integer `k`, every datum joins the same two points
+    in the same direction, unchanged -/
+theorem T_C07_shift {α : Type} [Inhabited α] (f : Face α Datum) (h : Face4 f) (k : Int) :
+    (∀ x ∈ dconn (f.shift k), x ∈ dconn f) ∧ (∀ x ∈ dconn f, x ∈ dconn (f.shift k)) := by
+  obtain ⟨a, b, c, d, e0, e1, e2, e3, rfl⟩ := face4_cases h
+  rcases shift_lit a b c d e0 e1 e2 e3 k with h | h | h | h <;> rw [h] <;>
+    simp only [dconn_lit, List.mem_cons, List.not_mem_nil, or_false] <;>
+    constructor <;> intro x hx <;> rcases hx with h | h | h | h <;> subst h <;> simp
+
+/-- **re-oriented**: `Face.reorient` is a shift, whatever the distances are -/
+theorem T_C07_reorient {α : Type} [Inhabited α] (f : Face α Datum) (h : Face4 f) (dist : α → Rat) :
+    (∀ x ∈ dconn (f.reorient dist), x ∈ dconn f) ∧ (∀ x ∈ dconn f, x ∈ dconn (f.reorient dist)) :=
+  T_C07_shift f h _
+
+/-- **any sequence of calls**: the face that goes into the operation carries exactly the curves the
+    user described — each datum between its two points, either as given or, when its end points are
+    swapped, reversed -/
+theorem T_C07_face_calls (pos : Nat → V3) (f : Face Nat Datum) (h : Face4 f) (ops : List FaceOp) :
+    (∀ x ∈ dconn (applyFaceOps pos f ops), x ∈ dconn f ∨ flipC x ∈ dconn f) ∧
+    (∀ x ∈ dconn f, x ∈ dconn (applyFaceOps pos f ops) ∨ flipC x ∈ dconn (applyFaceOps pos f ops)) :=
+  (sameCurves_applyOps pos h ops).2
+
+/-- reversing twice gives the datum back; data that do not depend on direction never change -/
+theorem T_C07_reverse (d : Datum) :
+    d.reverse.reverse = d ∧ d.reverse.kind = d.kind ∧ d.reverse.tag = d.tag ∧
+      (d.kind.dirDep = false → d.reverse = d) :=
+  ⟨Datum.reverse_reverse d, Datum.reverse_kind d, Datum.reverse_tag d, Datum.reverse_of_not_dirDep d⟩
+
+example : Face4 (⟨[10, 11, 12, 13], [exSpline, lineDatum, exArc, lineDatum]⟩ : Face Nat Datum) := ⟨rfl, rfl⟩
+
+example : dconn (applyFaceOps exPos ⟨[10, 11, 12, 13], [exSpline, lineDatum, exArc, lineDatum]⟩
+    [.invert, .shift 1]) =
+    [(10, 13, lineDatum), (13, 12, exArc), (12, 11, lineDatum), (11, 10, exSpline.reverse)] := by decide +kernel
+
+
+/-! ### from the user's faces to the edges section -/
+
+/-- the curves the user described with an operation: every face datum between the two points it
+    was given for when the face was made, every side datum between the bottom and top point the
+    operation shows at that index (after the calls on its faces) -/
+def described (pos : Nat → V3) (u : UOp) : List (Nat × Nat × Datum) :=
+  let b := applyFaceOps pos u.bottom u.bottomOps
+  let t := applyFaceOps pos u.top u.topOps
+  dconn u.bottom ++ dconn u.top ++
+    (List.range 4).map (fun i => (b.pts.getD i 0, t.pts.getD i 0, u.side.getD i lineDatum))
+
+/-- **direction, end to end**: whatever calls were applied to the faces and however many
+    operations there are, every written entry `kind v1 v2 data` is one of the curves some operation
+    described: it joins the vertices at the two locations the datum was given for and either runs
+    the way it was given with the data as given, or runs the other way with the data reversed
+    (points listed backwards, angle negated). -/
+theorem T_C07_end_to_end (locPos : Nat → V3) (bs : List (Nat × Nat × Nat)) (hbs : beamsOk bs = true)
+    (us : List UOp) (hwf : ∀ u ∈ us, Face4 u.bottom ∧ Face4 u.top) (e : Entry)
+    (he : e ∈ (assemble locPos bs us).edges) :
+    ∃ u ∈ us,
+      let a := assemble locPos bs us
+      let y := (a.vlocs.getD e.v1 0, a.vlocs.getD e.v2 0, e.d)
+      y ∈ described locPos u ∨ flipC y ∈ described locPos u := by
+  have he' : e ∈ asmEdges (fun v => locPos ((resolveAll locPos [] us).1.getD v 0)) bs (resolveAll locPos [] us).2 := he
+  obtain ⟨o, ho, s, hs, hv1, hv2, hd, _⟩ := T_C07_direction _ bs hbs _ e he'
+  obtain ⟨_, hres⟩ := resolveAll_spec locPos [] us
+  obtain ⟨u, hu, hdata, hverts⟩ := hres o ho
+  refine ⟨u, hu, ?_⟩
+  obtain ⟨hb4, hbc⟩ := sameCurves_applyOps locPos (hwf u hu).1 u.bottomOps
+  obtain ⟨ht4, htc⟩ := sameCurves_applyOps locPos (hwf u hu).2 u.topOps
+  obtain ⟨b0, b1, b2, b3, be0, be1, be2, be3, hb⟩ := face4_cases hb4
+  obtain ⟨t0, t1, t2, t3, te0, te1, te2, te3, ht⟩ := face4_cases ht4
+  have hvl : (assemble locPos bs us).vlocs = (resolveAll locPos [] us).1 := rfl
+  simp only [hvl, hv1, hv2, hd]
+  rw [hb, ht] at hdata hverts
+  simp only [List.cons_append, List.nil_append, List.length_cons, List.length_nil] at hverts
+  have hc : ∀ c, c < 8 → (resolveAll locPos [] us).1.getD (o.verts.getD c 0) 0
+      = [b0, b1, b2, b3, t0, t1, t2, t3].getD c 0 := by
+    intro c hc
+    rw [List.getD_eq_getElem?_getD, hverts c (by omega), List.getD_eq_getElem?_getD]
+  unfold described
+  rw [hb] at hbc
+  rw [ht] at htc
+  simp only [hb, ht]
+  have hs12 : s = 0 ∨ s = 1 ∨ s = 2 ∨ s = 3 ∨ s = 4 ∨ s = 5 ∨ s = 6 ∨ s = 7 ∨ s = 8 ∨ s = 9 ∨ s = 10 ∨ s = 11 := by
+    omega
+  have face : ∀ (f g : Face Nat Datum) (x : Nat × Nat × Datum), SameCurves f g → x ∈ dconn g →
+      x ∈ dconn f ∨ flipC x ∈ dconn f := fun f g x h hx => h.1 x hx
+  rcases hs12 with rfl | rfl | rfl | rfl | rfl | rfl | rfl | rfl | rfl | rfl | rfl | rfl
+  -- bottom face, slots 0-3
+  all_goals (
+    simp only [slotPair, Nat.reduceLT, Nat.reduceAdd, Nat.reduceSub, Nat.reduceMod, if_true, if_false,
+      hc _ (by decide : (0:Nat) < 8), hc _ (by decide : (1:Nat) < 8), hc _ (by decide : (2:Nat) < 8),
+      hc _ (by decide : (3:Nat) < 8), hc _ (by decide : (4:Nat) < 8), hc _ (by decide : (5:Nat) < 8),
+      hc _ (by decide : (6:Nat) < 8), hc _ (by decide : (7:Nat) < 8), hdata]
+    simp only [List.getD_cons_zero, List.getD_cons_succ, List.cons_append, List.nil_append])
+  · rcases face _ _ (b0, b1, be0) hbc (by simp [dconn_lit]) with h | h
+    · left; simp only [List.mem_append]; left; left; exact h
+    · right; simp only [List.mem_append]; left; left; exact h
+  · rcases face _ _ (b1, b2, be1) hbc (by simp [dconn_lit]) with h | h
+    · left; simp only [List.mem_append]; left; left; exact h
+    · right; simp only [List.mem_append]; left; left; exact h
+  · rcases face _ _ (b2, b3, be2) hbc (by simp [dconn_lit]) with h | h
+    · left; simp only [List.mem_append]; left; left; exact h
+    · right; simp only [List.mem_append]; left; left; exact h
+  · rcases face _ _ (b3, b0, be3) hbc (by simp [dconn_lit]) with h | h
+    · left; simp only [List.mem_append]; left; left; exact h
+    · right; simp only [List.mem_append]; left; left; exact h
+  · rcases face _ _ (t0, t1, te0) htc (by simp [dconn_lit]) with h | h
+    · left; simp only [List.mem_append]; left; right; exact h
+    · right; simp only [List.mem_append]; left; right; exact h
+  · rcases face _ _ (t1, t2, te1) htc (by simp [dconn_lit]) with h | h
+    · left; simp only [List.mem_append]; left; right; exact h
+    · right; simp only [List.mem_append]; left; right; exact h
+  · rcases face _ _ (t2, t3, te2) htc (by simp [dconn_lit]) with h | h
+    · left; simp only [List.mem_append]; left; right; exact h
+    · right; simp only [List.mem_append]; left; right; exact h
+  · rcases face _ _ (t3, t0, te3) htc (by simp [dconn_lit]) with h | h
+    · left; simp only [List.mem_append]; left; right; exact h
+    · right; simp only [List.mem_append]; left; right; exact h
+  all_goals (left; simp only [List.mem_append]; right; simp [List.range, List.range.loop])
+
+
+/-! non-vacuity of the end-to-end statement and of "first definition wins": two cubes sharing the
+    edge between locations 1 and 2; the first gives it a spline as its bottom edge 1 (1 → 2) on an
+    inverted face, the second a polyLine as its closing bottom edge 3 (2 → 1) -/
+
+def exLoc : Nat → V3 := fun l =>
+  [⟨0, 0, 0⟩, ⟨1, 0, 0⟩, ⟨1, 1, 0⟩, ⟨0, 1, 0⟩, ⟨0, 0, 1⟩, ⟨1, 0, 1⟩, ⟨1, 1, 1⟩, ⟨0, 1, 1⟩,
+   ⟨2, 0, 0⟩, ⟨2, 1, 0⟩, ⟨2, 0, 1⟩, ⟨2, 1, 1⟩].getD l V3.zero
+
+def exS : Datum := { kind := .spline, tag := 1, pts := [⟨5/4, 1/4, 0⟩, ⟨5/4, 1/2, 0⟩] }
+def exP : Datum := { kind := .polyLine, tag := 2, pts := [⟨3/4, 3/4, 0⟩, ⟨3/4, 1/2, 0⟩] }
+def exA : Datum := { kind := .angle, tag := 3, angle := 1, third := some ⟨-1/4, 0, 1/2⟩ }
+
+def exU1 : UOp :=
+  { bottom := ⟨[0, 1, 2, 3], [lineDatum, exS, lineDatum, lineDatum]⟩, bottomOps := [.invert, .shift 2],
+    top := ⟨[4, 5, 6, 7], [lineDatum, lineDatum, lineDatum, lineDatum]⟩, topOps := [.invert, .shift 2],
+    side := [lineDatum, lineDatum, lineDatum, exA] }
+
+def exU2 : UOp :=
+  { bottom := ⟨[1, 8, 9, 2], [lineDatum, lineDatum, lineDatum, exP]⟩, bottomOps := [],
+    top := ⟨[5, 10, 11, 6], [lineDatum, lineDatum, lineDatum, lineDatum]⟩, topOps := [],
+    side := [lineDatum, lineDatum, lineDatum, lineDatum] }
+
+example : ∀ u ∈ [exU1, exU2], Face4 u.bottom ∧ Face4 u.top := by
+  intro u hu
+  simp only [List.mem_cons, List.not_mem_nil, or_false] at hu
+  rcases hu with rfl | rfl <;> exact ⟨⟨rfl, rfl⟩, ⟨rfl, rfl⟩⟩
+
+/-- the inverted-and-shifted first cube numbers its corners 1,0,3,2 / 5,4,7,6; its spline is written
+    from vertex 3 (location 2) to vertex 0 (location 1) with the points reversed; the side angle is
+    written as given; the second cube's polyLine on the same edge is ignored -/
+example : (assemble exLoc (directedBeams.getD []) [exU1, exU2]).vlocs = [1, 0, 3, 2, 5, 4, 7, 6, 8, 9, 10, 11] ∧
+    (assemble exLoc (directedBeams.getD []) [exU1, exU2]).edges.length = 2 ∧
+    ⟨3, 0, exS.reverse⟩ ∈ (assemble exLoc (directedBeams.getD []) [exU1, exU2]).edges ∧
+    ⟨3, 7, exA⟩ ∈ (assemble exLoc (directedBeams.getD []) [exU1, exU2]).edges := by
+  decide +kernel
+
+/-- hypotheses of `T_C07_first_wins_op` on that assembly: slot 3 of the first (resolved) cube -/
+example :
+    let a := assemble exLoc (directedBeams.getD []) [exU1, exU2]
+    let pos := fun v => exLoc (a.vlocs.getD v 0)
+    let o := a.rops.getD 0 ⟨[], []⟩
+    valid pos (slotReq o 3) = true ∧
+      (∀ q ∈ allReqs (directedBeams.getD []) [], valid pos q = true → q.same (slotReq o 3) = false) ∧
+      (∀ t ∈ List.range 12, valid pos (slotReq o t) = true → (slotReq o t).same (slotReq o 3) = true →
+        slotReq o t = slotReq o 3) := by
+  decide +kernel
+
+/-- hypotheses of `T_C07_first_wins` / `T_C07_kept`: a second valid request on the same pair, in the
+    other direction, after a first one -/
+example :
+    let r : Entry := ⟨3, 0, exS.reverse⟩
+    let pos := fun v => exLoc ([1, 0, 3, 2].getD v 0)
+    valid pos r = true ∧ valid pos ⟨0, 3, exP⟩ = true ∧
+      run pos ([] ++ r :: [⟨0, 3, exP⟩]) [] = [r] := by
+  decide +kernel
+
+/-! ### the length used for grading -/
+
+/-- length of a polyline for an arbitrary segment measure -/
+def pathLen (seg : V3 → V3 → Rat) : List V3 → Rat
+  | a :: b :: rest => seg a b + pathLen seg (b :: rest)
+  | _ => 0
+
+theorem pathLen_snoc2 (seg : V3 → V3 → Rat) (l : List V3) (x y : V3) :
+    pathLen seg (l ++ [x, y]) = pathLen seg (l ++ [x]) + seg x y := by
+  induction l with
+  | nil => simp [pathLen]
+  | cons a t ih =>
+    cases t with
+    | nil => simp [pathLen]
+    | cons b t' =>
+      simp only [List.cons_append, pathLen] at ih ⊢
+      rw [ih]; ring
+
+/-- a polyline has the same length from either end, for every symmetric segment measure
+    (the Euclidean distance in particular) -/
+theorem T_C07_length_reverse (seg : V3 → V3 → Rat) (hsym : ∀ a b, seg a b = seg b a) (l : List V3) :
+    pathLen seg l.reverse = pathLen seg l := by
+  induction l with
+  | nil => rfl
+  | cons a t ih =>
+    cases t with
+    | nil => rfl
+    | cons b t' =>
+      have : (a :: b :: t').reverse = t'.reverse ++ [b, a] := by simp
+      rw [this, pathLen_snoc2]
+      have h2 : t'.reverse ++ [b] = (b :: t').reverse := by simp
+      rw [h2, ih, hsym b a]
+      simp only [pathLen]; ring
+
+/-- the polyline an entry draws: first vertex, the listed points, second vertex -/
+def entryPath (pos : Nat → V3) (e : Entry) : List V3 := pos e.v1 :: e.d.pts ++ [pos e.v2]
+
+/-- the same curve written from its other end -/
+def flipE (e : Entry) : Entry := ⟨e.v2, e.v1, e.d.reverse⟩
+
+/-- **length**: a spline / polyLine entry written from the other end with its data reversed draws
+    the same polyline backwards, so `Edge.length` (the polyline through first vertex, points,
+    second vertex) is the length of the curve the user described, in whichever of the two
+    admissible ways (`T_C07_end_to_end`) the entry is written -/
+theorem T_C07_length (pos : Nat → V3) (seg : V3 → V3 → Rat) (hsym : ∀ a b, seg a b = seg b a) (e : Entry)
+    (hk : e.d.kind = .spline ∨ e.d.kind = .polyLine) :
+    entryPath pos (flipE e) = (entryPath pos e).reverse ∧
+      pathLen seg (entryPath pos (flipE e)) = pathLen seg (entryPath pos e) := by
+  have h1 : entryPath pos (flipE e) = (entryPath pos e).reverse := by
+    obtain ⟨v1, v2, d⟩ := e
+    obtain ⟨kind, tag, pts, angle, third⟩ := d
+    simp only at hk
+    rcases hk with rfl | rfl <;> simp [entryPath, flipE, Datum.reverse]
+  exact ⟨h1, by rw [h1, T_C07_length_reverse seg hsym]⟩
+
+example : (fun a b : V3 => V3.norm2 (a - b)) ⟨0, 0, 0⟩ ⟨1, 2, 3⟩ = (fun a b : V3 => V3.norm2 (a - b)) ⟨1, 2, 3⟩ ⟨0, 0, 0⟩ ∧
+    entryPath exLoc (flipE ⟨1, 2, exS⟩) = [exLoc 2, ⟨5/4, 1/2, 0⟩, ⟨5/4, 1/4, 0⟩, exLoc 1] := by decide +kernel
+
+/-- centre of the `arc v1 v2 angle axis` construction of `arc_from_theta` for a unit axis
+    perpendicular to the chord, with `t = tan(angle/2)`: `mid − (dp × axis) / (2 t)` -/
+def angleCentre (p1 p2 axis : V3) (t : Rat) : V3 :=
+  V3.smul (1 / 2) (p1 + p2) - V3.smul (1 / (2 * t)) (V3.cross (p2 - p1) axis)
+
+/-- **sense of an angle arc**: swapping the end points and negating the angle (`Angle.reverse`,
+    tan is odd) leaves the centre of the arc where it was — the same arc is drawn -/
+theorem T_C07_angle_sense (p1 p2 axis : V3) (t : Rat) :
+    angleCentre p2 p1 axis (-t) = angleCentre p1 p2 axis t := by
+  apply V3.ext' <;> simp [angleCentre] <;> ring
+
+/-! ### known finding, at model level -/
+
+/-- `Wire.edge:defined-later`: a block assembled before the operation that defines a shared edge
+    keeps a line on its wire although the edge list ends up with a curved entry for that pair.
+    Here the second cube defines the edge between vertices 1 and 2 (its closing edge 3), the first
+    cube's wire on beam (1,2) holds a line. -/
+theorem T_C07_wire_stale_counterexample :
+    let u1 : UOp := { exU1 with bottom := ⟨[0, 1, 2, 3], [lineDatum, lineDatum, lineDatum, lineDatum]⟩,
+                                bottomOps := [], topOps := [] }
+    let a := assemble exLoc (directedBeams.getD []) [u1, exU2]
+    a.edges.length = 2 ∧ ⟨3, 7, exA⟩ ∈ a.edges ∧ ⟨2, 1, exP⟩ ∈ a.edges ∧
+      (a.wires.take 12).any (fun w => w == ⟨1, 2, lineDatum⟩ && w.same ⟨2, 1, exP⟩) = true := by
+  decide +kernel
 
 end CBV.C07
